@@ -18,4 +18,6 @@ def enum_plans(tier):
     return [# two applications with the same id for different peers: requests of every kind from both peers
             dict(cfg="TWOAPPS", depth=3 if th else 2, maxtime=0, alpha=["req1", "reqf"], faults=False, maxconn=2, prefix=two_ready_prefix()),
             # an application tries to send to a foreign realm, then a peer sends a request for that realm
-            dict(cfg="A", depth=5 if th else 4, maxtime=0, alpha=["cerok", "req1", "reqf", "sendf"], faults=False, maxconn=1)]
+            dict(cfg="A", depth=5 if th else 4, maxtime=0, alpha=["cerok", "req1", "reqf", "sendf"], faults=False, maxconn=1),
+            # requests of the application in flight; the peer sends watchdog answers bearing their identifiers, and real answers
+            dict(cfg="A", depth=5 if th else 4, maxtime=1, alpha=["cerok", "send1", "sdwa", "sans"], faults=False, maxconn=1)]
